@@ -38,6 +38,12 @@ def run(ctx):
     H.structural_traits(ctx, "R9")
     ctx.rule("R8", "computed-mutation duplicate detection does not carry keys from one solution to the next (C16 R4)")
     C16.run(_Only(ctx, "R4", "R8"))
+    ctx.rule("R10", "within a solution at most one value per key: the duplicate test probes the mutation's key (C16 R3)")
+    C16.run(_Only(ctx, "R3", "R10"))
+    # PredicateExists must answer from the hashes of *all* solutions of the set, whatever their position (C12 R4)
+    from . import C12
+    ctx.rule("R11", "PredicateExists is answered from one hash per solution of the whole set (C12 R4)")
+    C12.run(_Only(ctx, "R4", "R11"))
     f = prog.fn("essential_hash::solution_set_addr::from_set")
     if ctx.anchor("R2", "fn from_set", f):
         ctx.saw(f)
